@@ -1,3 +1,4 @@
+import WfModel.Replay
 import WfModel.Runner
 import WfModel.Context
 import WfModel.Serial
@@ -271,6 +272,8 @@ structure DState where
   cfg : Cfg := { steps := [] }
   st : State := initState
   run : Runner := { st := initState }
+  /-- the tick list of a pending `rebuild` (C11) -/
+  ticks : List Tick := []
 
 def tokens (s : String) : List String := (s.splitOn " ").filter (· ≠ "")
 
@@ -391,6 +394,23 @@ def step (d : DState) (line : String) : DState × String :=
       | .timeout => (d, "timeout " ++ sList sTick.sRes (WaitOut.results wid .timeout))
       | .waiting a => (d, "waiting " ++ sTick.sRes a)
       | .got e => (d, "got " ++ sEv e ++ " " ++ sList sTick.sRes (WaitOut.results wid (.got e)))
+    | _ => (d, "bad-op")
+  -- C11: `rebuild_state_from_ticks(init_state, ticks)` as the theorems model it (`replayTicks`): the current state is the
+  -- init state; `rbtick` appends one tick to the list; `rebuild <now0> <clk> <policy>` rewinds at `now0`, reduces every
+  -- tick at `clk`, and prints the rebuilt state, `running_steps()` of it and the context loaded from its serialisation
+  | ["rbclear"] => ({ d with ticks := [] }, "ok")
+  | "rbtick" :: ts =>
+    match tick ts with
+    | some (t, []) => ({ d with ticks := d.ticks ++ [t] }, "ok")
+    | _ => (d, "bad-op")
+  | "rebuild" :: ts =>
+    match (do let now0 ← int; let clk ← int; let p ← policy; pure (now0, clk, p)) ts with
+    | some ((now0, clk, p), []) =>
+      match replayTicks d.cfg p d.st now0 (fun _ => clk) d.ticks with
+      | none => (d, "crash")
+      | some rep =>
+        (d, sState d.cfg rep.st ++ " ;; A " ++ sList toString (activeSteps d.cfg rep.st) ++ " ;; D " ++
+          sState d.cfg (roundtrip d.cfg rep.st))
     | _ => (d, "bad-op")
   | ["rend"] => (d, sOutcome d.run.outcome ++ " ;; " ++ sList sPub d.run.stream)
   | ["rstream"] => (d, sList sPub d.run.stream)
